@@ -20,7 +20,11 @@ def _replay(mod, path: str) -> int:
         return 2
     rec = core.Rec(mod.ID)
     core.WATCH.install()
-    mod.replay(core.unjson(doc["witness"]), rec)
+    w = core.unjson(doc["witness"])
+    if isinstance(w, dict) and "$interp" in w:
+        core.merge_child(rec, core.child("replay", mod.__name__, w["w"], w["$interp"]), w["$interp"])
+    else:
+        mod.replay(w, rec)
     want = doc.get("signature")
     rc = 0
     for key, v in sorted(rec.viol.items()):
